@@ -40,6 +40,13 @@ def Step.toEStep : Step → Option EStep
   | .ungroup => some (.flatMap ungroupF)
   | .glen => some (.map glenF)
   | .gsum => some (.map gsumF)
+  | .mapSide side => some (.map (mapSideF side))
+  | .filterSide side => some (.filter (filterSideF side))
+  | .tryMap => some (.map tryF)
+  | .unresult => some (.map (fun x => x))
+  | .debugInspect => some (.map (fun x => x))
+  | .debugCount => some (.map (fun x => x))
+  | .debugSample _ => some (.map (fun x => x))
   | _ => none
 
 def toESteps : List Step → Option (List EStep)
